@@ -712,7 +712,9 @@ PyObject* py_slic(PyObject* self, PyObject* args) {
     if (PyArray_NDIM(array) != 3 ||
         PyArray_NDIM(labels) != 2 ||
         PyArray_DIM(array, 0) != PyArray_DIM(labels, 0) ||
-        PyArray_DIM(array, 1) != PyArray_DIM(labels, 1)) {
+        PyArray_DIM(array, 1) != PyArray_DIM(labels, 1) ||
+        PyArray_DIM(array, 2) != 3 ||
+        S <= 0) {
         PyErr_SetString(PyExc_RuntimeError, "mahotas._segmentation: Unexpected array dimensions");
         return NULL;
     }
